@@ -70,6 +70,12 @@ func applyBuilder(r0 *core.Rng, idx int, c *message.IKEPayloadContainer) builder
 		return builderCase{name: "BuildEncrypted", expect: abs.Payload{Kind: abs.PSK, SK: &abs.SK{Next: next, Data: data}}}
 	case 3:
 		g, data := r.U16(), d()
+		if (idx/24)%3 != 0 {
+			// group and value that belong together (modulus length +-1, leading sign octet, ...)
+			var kd abs.HB
+			g, kd = gen.KE(r0)
+			data = arg(append([]byte{}, kd...))
+		}
 		c.BUildKeyExchange(g, data)
 		return builderCase{name: "BUildKeyExchange", expect: abs.Payload{Kind: abs.PKE, KE: &abs.KE{Group: g, Data: data}}}
 	case 4:
